@@ -44,7 +44,7 @@ class Unit:
 
     def __init__(self, name, harness, entry, flags=None, note="", bounds=""):
         self.name = name
-        self.harness = ["intrinsics.go"] + list(harness)
+        self.harness = ["intrinsics.go", "world_native.go"] + [h for h in harness if h != "world_native.go"]
         self.entry = entry
         self.flags = flags or {}
         self.note = note
@@ -102,6 +102,7 @@ func TestZZReplay(t *testing.T) {
 		}()
 		fn()
 	}()
+	zzWorldCleanup()
 	for _, l := range zzLoad().Failed {
 		fmt.Println("ZZ-FAILED:", l)
 	}
